@@ -18,6 +18,7 @@ META = {
     "not_decided": "digit-exact equality with printf for all values, precisions and formats",
     "assumptions": [],
 }
+META["explanation"] += " " + "(ZB-past, shared with C01/C17) no raw access to the stream's buffer in the formatter is provably at or beyond Length(), or in front of started_at, on some path."
 
 
 def run(ctx):
